@@ -34,6 +34,8 @@ class Call:
         self.hexes = []  # uuid hex strings (len 32), one per uuid4() call
         self.ctrs = []  # renderings of the counter: unconstrained strings
         self.cons = []
+        self.approximated = []
+        self.depth = 0
 
     def new_hex(self, length=32):
         h = z3.String(f"uuid{self.i}_{len(self.hexes)}")
@@ -104,10 +106,59 @@ def tr_expr(node, call, env):
         raise Unencodable("counter used outside of string formatting")
     if isinstance(node, ast.Attribute) and isinstance(node.value, ast.Name) and node.value.id == "self":
         return call.new_attr(node.attr)
-    raise Unencodable(f"expression {ast.dump(node)[:80]}")
+    if (isinstance(node, ast.Call) and isinstance(node.func, ast.Attribute) and isinstance(node.func.value, ast.Name)
+            and node.func.value.id == "self" and not node.keywords and call.depth < 3):
+        # a helper method of the engine: translate its body in the same call context (arguments bound positionally)
+        from lsst.daf.relation import GenericConcreteEngine
+
+        meth = getattr(GenericConcreteEngine, node.func.attr, None)
+        if meth is not None:
+            try:
+                fn = ast.parse(textwrap.dedent(inspect.getsource(meth))).body[0]
+                params = [a.arg for a in fn.args.args][1:]
+                if len(params) >= len(node.args):
+                    env2 = {p: tr_expr(a, call, env) for p, a in zip(params, node.args)}
+                    call.depth += 1
+                    try:
+                        r = _tr_block(fn.body, call, env2)
+                    finally:
+                        call.depth -= 1
+                    if r is not None:
+                        return r
+            except (OSError, TypeError, SyntaxError, Unencodable):
+                pass
+    # anything else (helper calls, other attributes, arithmetic): an unconstrained string - a sound over-approximation
+    # for the uniqueness VC; recorded so that a non-reproducing counterexample is reported as inconclusive
+    call.approximated.append(ast.unparse(node)[:60])
+    return z3.String(f"opaque{call.i}_{len(call.approximated)}")
 
 
 COUNTER = object()
+
+
+def _tr_block(stmts, call, env):
+    for st in stmts:
+        if isinstance(st, ast.Expr) and isinstance(st.value, ast.Constant):
+            continue
+        if isinstance(st, ast.Assign) and len(st.targets) == 1 and isinstance(st.targets[0], ast.Name):
+            if _is_counter(st.value):
+                env[st.targets[0].id] = COUNTER
+            else:
+                env[st.targets[0].id] = tr_expr(st.value, call, env)
+            continue
+        if isinstance(st, ast.AugAssign) and _is_counter(st.target):
+            continue  # the update; its interleavings are over-approximated by the free counter rendering
+        if isinstance(st, ast.Assign) and len(st.targets) == 1 and _is_counter(st.targets[0]):
+            continue
+        if isinstance(st, ast.With):
+            r = _tr_block(st.body, call, env)
+            if r is not None:
+                return r
+            continue
+        if isinstance(st, ast.Return):
+            return tr_expr(st.value, call, env)
+        raise Unencodable(f"statement {ast.dump(st)[:80]}")
+    return None
 
 
 def tr_function(fn_ast, call):
@@ -117,31 +168,7 @@ def tr_function(fn_ast, call):
     if args[:2] != ["self", "prefix"]:
         raise Unencodable(f"unexpected signature {args}")
 
-    def block(stmts):
-        for st in stmts:
-            if isinstance(st, ast.Expr) and isinstance(st.value, ast.Constant):
-                continue
-            if isinstance(st, ast.Assign) and len(st.targets) == 1 and isinstance(st.targets[0], ast.Name):
-                if _is_counter(st.value):
-                    env[st.targets[0].id] = COUNTER
-                else:
-                    env[st.targets[0].id] = tr_expr(st.value, call, env)
-                continue
-            if isinstance(st, ast.AugAssign) and _is_counter(st.target):
-                continue  # the update; its interleavings are over-approximated by the free counter rendering
-            if isinstance(st, ast.Assign) and len(st.targets) == 1 and _is_counter(st.targets[0]):
-                continue
-            if isinstance(st, ast.With):
-                r = block(st.body)
-                if r is not None:
-                    return r
-                continue
-            if isinstance(st, ast.Return):
-                return tr_expr(st.value, call, env)
-            raise Unencodable(f"statement {ast.dump(st)[:80]}")
-        return None
-
-    r = block(fn_ast.body)
+    r = _tr_block(fn_ast.body, call, env)
     if r is None:
         raise Unencodable("no return")
     return r
@@ -364,8 +391,11 @@ def run_shape(shape, tier):
         witness = {"name": _str(m, n1), "prefix1": _str(m, c1.prefix), "prefix2": _str(m, c2.prefix)}
         coll, desc = real_collision(witness["prefix1"] if witness["prefix1"] == witness["prefix2"] else "leaf")
         if not coll:
-            out["status"] = "harness-error"
-            out["detail"] = f"model admits a collision ({witness}) that the real code does not reproduce: {desc}"
+            # the encoding over-approximates (counter rendering, opaque sub-expressions, lock-free reading of the source):
+            # a collision the real code does not show under sequential, cross-engine and forced lost-update replays is
+            # not a finding and not evidence of a wrong harness - it is reported as not decided
+            out["status"] = INCONCLUSIVE
+            out["detail"] = (f"encoding admits a collision ({witness}; opaque: {c1.approximated}) that the real code does not reproduce: {desc}")[:300]
             return out
         out["status"] = VIOLATION
         out["violations"] = [{"site": "collision", "summary": desc, "replay": {"kind": "collision", "prefix": "leaf"}}]
@@ -396,8 +426,8 @@ def run_shape(shape, tier):
             name = iteration.Engine(name="p").get_relation_name("leaf")
             pfx = "leaf"
         if name.startswith(pfx):
-            out["status"] = "harness-error"
-            out["detail"] = f"model says the name need not start with the prefix, real code returned {name!r} for {pfx!r}"
+            out["status"] = INCONCLUSIVE
+            out["detail"] = f"encoding does not force the prefix (opaque: {c.approximated}); real code returned {name!r} for {pfx!r}"
             return out
         out["status"] = VIOLATION
         out["violations"] = [{"site": "prefix", "summary": f"get_relation_name({pfx!r}) returned {name!r}",
